@@ -26,7 +26,7 @@ ASSUMPTIONS = [
     "statistics 28-31 are taken in their implemented reading (step of two, intersected with records), see DESIGN §3",
 ]
 REQUIRED = ["named.checked", "listing.checked", "tools.distribution", "tools.preserved", "tools.transformed.nonempty", "tools.equidistributed",
-            "calls.Perm.count_inversions", "calls.Perm.holeyness", "calls.Perm.rtlmax_ltrmin_decomposition", "calls.Perm.cycle_decomp", "aliasing.mutated_results", "shortcuts.checked", "tool_faults.function_failed_once", "tool_faults.injected", "tools.class_with_empty_level_below_members", "tools.transformed_equidistributed", "tools.cancelling_pairs", "primes.history_checked", "long.perms", "history.used_objects"]
+            "calls.Perm.count_inversions", "calls.Perm.holeyness", "calls.Perm.rtlmax_ltrmin_decomposition", "calls.Perm.cycle_decomp", "aliasing.mutated_results", "shortcuts.checked", "tool_faults.function_failed_once", "tool_faults.injected", "tools.class_with_empty_level_below_members", "tools.transformed_equidistributed", "tools.cancelling_pairs", "primes.history_checked", "long.perms", "history.used_objects", "holeyness.structured_long"]
 MIN_NONTRIVIAL = 3000
 CTX = None
 MON = None
@@ -122,6 +122,7 @@ GENERATORS = {"inversions", "non_inversions", "peaks", "pinnacles", "valleys", "
               "strong_fixed_points", "cyclic_peaks", "cyclic_valleys", "double_excedance", "double_drops", "all_bonds", "inc_bonds", "dec_bonds",
               "rtlmax_ltrmin_decomposition", "descents", "ascents"}
 HOLEY_MAX = {"quick": 6, "thorough": 7}
+HOLEY_FORCED = [False]  # set while the few structured long inputs are asked (2^n subsets each: judged although above the bound)
 MUTABLE_RESULTS = ["cycle_decomp", "descent_set", "ascent_set", "peak_list", "valley_list", "bend_list", "pinnacle_set", "cyclic_peaks_list",
                    "cyclic_valleys_list", "double_excedance_list", "double_drops_list", "foremaxima", "afterminima", "aftermaxima", "foreminima",
                    "rank_encoding", "threepats", "fourpats", "longestruns_ascending", "longestruns_descending"]
@@ -149,7 +150,7 @@ def make_post(name, oracle, normal):
         p = tuple(args[0])
         if not C.is_perm(p):
             return
-        if name == "holeyness" and len(p) > HOLEY_MAX[CTX.tier]:
+        if name == "holeyness" and len(p) > HOLEY_MAX[CTX.tier] and not HOLEY_FORCED[0]:
             return
         if name == "min_gapsize" and len(p) < 2:
             return
@@ -569,6 +570,34 @@ LONG_METHODS = ["count_column_sum_primes", "count_fixed_points", "count_inversio
                 "max_drop_size", "count_cyclic_peaks", "count_aftermaxima", "count_foreminima", "is_increasing", "is_decreasing", "count_bounces"]
 
 
+def holey_structured(rng, n):
+    """a permutation of length n whose holeyness is attained on SEVERAL separate runs of positions: r runs of 2-3 adjacent
+    positions carry values no two of which are consecutive (every other value), the rest fills the gaps"""
+    r = rng.randint(3, 4)
+    runs, pos = [], 0
+    for _ in range(r):
+        size = rng.choice([2, 2, 3])
+        if pos + size > n:
+            break
+        runs.append(list(range(pos, pos + size)))
+        pos += size + rng.randint(1, 2)
+    chosen = [i for run in runs for i in run]
+    isolated = list(range(0, 2 * len(chosen), 2))
+    if not chosen or isolated[-1] >= n:
+        return None
+    rest_vals = [v for v in range(n) if v not in isolated]
+    rest_pos = [i for i in range(n) if i not in chosen]
+    rng.shuffle(isolated)
+    if rng.random() < 0.5:
+        rng.shuffle(rest_vals)
+    p = [None] * n
+    for i, v in zip(chosen, isolated):
+        p[i] = v
+    for i, v in zip(rest_pos, rest_vals):
+        p[i] = v
+    return p
+
+
 def cancelling_pairs(rng, n, count):
     """pairs of classes with the same number of permutations up to length n in total but different numbers per length:
     exactly the data on which a comparison pooled over lengths and the per-length definition can disagree"""
@@ -674,6 +703,16 @@ def run(ctx, spec):
             for name in rng.sample(linear, 12):
                 chk_method(ctx, name, p, [])
             chk_method(ctx, rng.choice(list(STEP_METHODS)), p, [rng.choice([None, 1, 2, 5])])
+        for _ in range(12 if ctx.tier == "quick" else 80):
+            q = holey_structured(rng, rng.randint(10, 12))
+            if q:
+                HOLEY_FORCED[0] = True
+                try:
+                    chk_method(ctx, "holeyness", q, [])
+                    chk_method(ctx, "holeyness", list(Perm(q).inverse()), [])
+                finally:
+                    HOLEY_FORCED[0] = False
+                ctx.count("holeyness.structured_long")
         chk_primes(ctx, rng.randrange(10 ** 6), 6000 if ctx.tier == "quick" else 40000)
         for kind in ("identity_swaps", "decreasing", "layered", "random"):
             for n in (rng.randint(501, 700), rng.randint(701, 1100), rng.randint(1300, 1500)):
